@@ -27,6 +27,12 @@ var opaquePkgs = map[string]bool{
 	"github.com/golang/glog": true, "github.com/pkg/errors": true,
 }
 
+// transparentFns are functions of otherwise opaque packages that are pure
+// string code and are interpreted from their own source.
+var transparentFns = map[string]bool{
+	"path/filepath.Match": true, "path/filepath.scanChunk": true, "path/filepath.matchChunk": true, "path/filepath.getEsc": true,
+}
+
 func opaquePkg(p *ssa.Package) bool {
 	if p == nil {
 		return false
@@ -54,6 +60,12 @@ func (e *Exec) stubFor(fn *ssa.Function) stubFn {
 	if s == nil && fn.Pkg == nil && fn.Origin() != nil {
 		// instantiated generic
 		s = stubs[fn.Origin().String()]
+	}
+	if s == nil && transparentFns[name] {
+		stubCacheMu.Lock()
+		stubCache[fn] = nil
+		stubCacheMu.Unlock()
+		return nil
 	}
 	if s == nil && opaquePkg(fn.Package()) && fn.Blocks != nil && !(fn.Name() == "init" && fn.Synthetic != "") {
 		s = func(e *Exec, fn *ssa.Function, args []value) value {
@@ -493,7 +505,7 @@ func init() {
 		stubs[n] = logFmt
 	}
 	for _, n := range []string{
-		"(github.com/golang/glog.Verbose).Info", "(github.com/golang/glog.Verbose).Infof", "(github.com/golang/glog.Verbose).Infoln",
+		"(github.com/golang/glog.Verbose).Info", "(github.com/golang/glog.Verbose).Infof", "(github.com/golang/glog.Verbose).Infoln", "(github.com/golang/glog.Verbose).InfoContextf", "(github.com/golang/glog.Verbose).InfoContext",
 		"runtime/debug.Stack", "fmt.Printf", "fmt.Println", "fmt.Print", "log.Printf", "log.Println",
 		"(*text/tabwriter.Writer).Init", "(*text/tabwriter.Writer).Flush",
 		"os/signal.Notify", "os/signal.Stop", "runtime.Gosched", "runtime.KeepAlive",
